@@ -260,7 +260,17 @@ func init() {
 			c15Batch(c, batch, "random")
 		}
 		// (c) whole manifests
-		schemas := []string{"schema: '1.2'", "schema: \"1.2\"", "schema: 1.2", "schema: '1.1'", "schema: [1.2]", "", "schema: !!str 1.2", "schema: &s '1.2'", "schema:\n  '1.2'", "schema: |\n  1.2", "schema: >-\n  1.2", "schema:   '1.2'   # c"}
+		schemas := []string{"schema: '1.2'", "schema: \"1.2\"", "schema: 1.2", "schema: '1.1'", "schema: [1.2]", "", "schema: !!str 1.2", "schema: &s '1.2'", "schema:\n  '1.2'", "schema: |\n  1.2", "schema: >-\n  1.2", "schema:   '1.2'   # c",
+			// strings that are not the text 1.2 but read like it: numerically equal, padded, prefixed, suffixed, other digits
+			"schema: '1.20'", "schema: \"1.20\"", "schema: '01.2'", "schema: '+1.2'", "schema: '1.2e0'", "schema: '12e-1'", "schema: !!str 1.20", "schema: '1.200'",
+			"schema: ' 1.2'", "schema: '1.2 '", "schema: \"1.2\\n\"", "schema: \"\\t1.2\"", "schema: '1.2.0'", "schema: 'v1.2'", "schema: '1,2'", "schema: '1.2x'", "schema: '1_2'",
+			"schema: '1.3'", "schema: '2.1'", "schema: '1.'", "schema: '.2'", "schema: '1'", "schema: ''", "schema: \"\"", "schema: '１.２'", "schema: '1.2\u00a0'", "schema: \"1.2\\0\"",
+			"schema: '0x1.3333333333333p+0'", "schema: '1.20000000000000001'", "schema: |\n  1.20", "schema: >\n  1.2", "schema: |+\n  1.2\n", "schema: '1.2\n\n  '", "schema: \"1.2\\\n  \"",
+			"schema: 1.20", "schema: 1.2e0", "schema: 0x1", "schema: null", "schema: ~", "schema: true", "schema: {v: '1.2'}", "schema: ['1.2']", "Schema: '1.2'", "schema : '1.2'"}
+		// the plain, exactly-right forms stay the most frequent ones
+		for k := 0; k < 3; k++ {
+			schemas = append(schemas, "schema: '1.2'", "schema: \"1.2\"", "schema: !!str 1.2")
+		}
 		contents := []string{"contents:\n  - a.fga\n  - b/c.fga", "contents: [a.fga, 'b.fga']", "contents: a.fga", "", "contents:\n  - 1\n  - a.fga", "contents:\n  - [a.fga]\n  - {x: y}",
 			"contents:\n  - &a a.fga\n  - *a", "contents:\n  - \"a\\\\b.fga\"\n  - ../x.fga\n  - y.txt", "contents: []", "contents:\n  - |\n    a.fga\n  - >-\n    b.fga", "contents:\n  -   x.fga # c\n  - 'y z.fga'",
 			"contents:\n  - null\n  - true\n  - ~", "contents: !!seq\n  - !!str 5.fga"}
